@@ -1,6 +1,6 @@
 (* Correspondence for C16: runs Model.Auth on the byte chunks the scripted client wrote to a
    real server peer carrying the auth checker plugin.
-   case inputs  = (nLIMIT (nRECVS sPROPAGATE sMODE xTOKEN nPANIC-AT sBEFORE sAFTER) (xCHUNK ...))
+   case inputs  = (nLIMIT (nRECVS sPROPAGATE sMODE xTOKEN nPANIC-AT sBEFORE sAFTER) (xCHUNK ...) sENTRY-POINT)
    observations = ((sSERVED nINDEXED sLISTED) sEOF-BEFORE (sSERVED nINDEXED sLISTED)
                    (nRECVONCE-CALLS nREFUSED) (zAUTH-REPLY-CODE ...) (nOTHER-BEFORE nOTHER-AFTER) nNEXT-POSTACCEPT nPOSTDISCONNECT
                    (nHOOK x16) (zCALL-SEQ ...) (zPUSH-SEQ ...) ((zSEQ zCODE) ...) nOTHER-FRAMES)  *)
@@ -101,7 +101,10 @@ Definition run (inp : val) : option val :=
       if sym_eqb tag "bearer"
       then Some (run_bearer limit sends (sym_eqb prop "true") reply (sym_eqb closes "true"))
       else None
-  | VL [VN limit; VL [VN recvs; prop; mode; VB token; VN panic_at; hb; ha]; VL chunks] =>
+  | VL [VN limit; VL [VN recvs; prop; mode; VB token; VN panic_at; hb; ha]; VL chunks; _entry] =>
+      (* _entry = sserveconn | slistener: Peer.ServeConn and Peer.ListenAndServe (serveListener) run the
+         same accept path; the model does not look at it, so both entry points must give the
+         observations of the one machine *)
       match chunks_of chunks with
       | None => None
       | Some cs =>
